@@ -169,6 +169,8 @@ def table():
         if kind not in ("ResourceTasksDistance", "ResourceNonDelay"):
             row(f"{kind}.cumulative.unassigned", REJECT, lambda kind=kind: rc(kind, 0, True), "unassigned_resource")
             row(f"{kind}.cumulative.two_tasks", ACCEPT, lambda kind=kind: rc(kind, 2, True), "unassigned_resource")
+    for kind in ("ResourceTasksDistance", "ResourceNonDelay"):
+        row(f"{kind}.cumulative.two_tasks", ACCEPT, lambda kind=kind: rc(kind, 2, True), "cumulative_sorted_busy_table")
     row("TasksContiguous.one_task", ACCEPT, lambda: (P(), ps.TasksContiguous(list_of_tasks=[T("a")])), "single_element")
     row("TasksContiguous.two_tasks", ACCEPT, lambda: (P(), ps.TasksContiguous(list_of_tasks=[T("a"), T("b")])),
         "single_element")
